@@ -245,7 +245,8 @@ def stepId (S : Spec) (st : RunSt) (id : String) : Except String RunSt :=
     if st.stack.length < n then .error s!"{id}: stack underflow" else
     let args := (st.stack.take n).map (resolve S)
     let want := u.inp.map (resolve S)
-    if !(args == want || (u.comm && args == want.reverse)) then
+    -- reversed operands only for an operation that *is* commutative, whatever the specification's flag says
+    if !(args == want || ((u.comm && (BinOp.ofName? u.op).any (·.comm)) && args == want.reverse)) then
       .error s!"{id}: applied to operands other than the ones the specification names"
     else if u.isStore && st.done.contains id then .error s!"{id}: store performed twice"
     else
